@@ -397,6 +397,11 @@ ROBUST = {
     'const_item': '#[typeshare]\npub const K: u32 = 1;\n',
     'unknown_nested_list': '#[typeshare]\npub struct S { #[typeshare(foo(bar))] pub a: u32 }\n',
     'alias_param_named_like_type': '#[typeshare]\npub type A<T> = Vec<T>;\n#[typeshare]\npub type T<A> = Vec<A>;\n',
+    'glob_use_root': 'use *;\nuse other::*;\n#[typeshare]\npub struct S { pub a: u32 }\n',
+    'non_ascii_type_names': '#[typeshare]\n#[serde(tag = "t", content = "c")]\npub enum Éa { V(u32), W { x: u32 }, É }\n#[typeshare]\npub struct Ñame { pub ß: u32 }\n#[typeshare]\npub enum Ünit { Ä, Ö }\n#[typeshare]\npub type Ålias = Vec<Ñame>;\n',
+    # every container shape as the payload of a tuple variant (back ends format these through other paths than struct fields)
+    'container_payloads': '#[typeshare]\n#[serde(tag = "t", content = "c")]\npub enum E<T> { A(HashMap<Vec<u8>, u32>), B(HashMap<String, Vec<Option<u32>>>), C([u8; 4]), D(&\'static [u32]), F(Option<Option<u32>>), G(()), H(HashMap<HashMap<String, u32>, u32>), I(Vec<T>), J(HashMap<T, u32>), K(Option<Vec<u8>>), L(Box<E<T>>), M(char), N(I54), O(f32) }\n',
+    'container_fields': '#[typeshare]\npub struct S<T> { pub a: HashMap<Vec<u8>, u32>, pub c: [u8; 4], pub d: &\'static [u32], pub f: Option<Option<u32>>, pub g: (), pub h: HashMap<HashMap<String, u32>, u32>, pub i: Vec<T>, pub j: HashMap<T, u32>, pub k: Option<Vec<u8>>, pub m: char }\n#[typeshare]\npub type Al<T> = HashMap<Vec<T>, Option<()>>;\n',
     'bare_use': 'use krate;\nuse other::Thing;\n#[typeshare]\npub struct S { pub a: u32 }\n',
 }
 ROBUST_MUST_DEFINE = {'const_item': ['K']}
@@ -441,9 +446,9 @@ def robust_case(exe, name, lang):
 
 
 def scenario_robust(exe, mode_arg, payload):
-    """C07 bound: 25 edge inputs (malformed nested typeshare lists, non-ASCII and underscore-only identifiers under rename_all, unparsable
+    """C07 bound: 29 edge inputs (malformed nested typeshare lists, non-ASCII and underscore-only identifiers under rename_all, unparsable
     text, unsupported types, deep cfg nesting, self / mutual references, empty tuple structs / variants, containers without arguments,
-    unknown nested typeshare(...) lists, a bare `use krate;`, a const) x 9 language / output-mode configurations (incl. Scala with and
+    unknown nested typeshare(...) lists, a bare `use krate;` / `use *;`, a const, non-ASCII type names, every container shape as variant payload / field / alias target) x 9 language / output-mode configurations (incl. Scala with and
     without a package) + a tree of 150 annotated files, each run with a 15 s time limit: the tool must exit 0, or non-zero with a
     diagnostic; it must never panic, abort or hang."""
     if mode_arg == 'check':
